@@ -38,6 +38,14 @@ SPECS = [
          ],
          raises={'*': {'ensures': ["raised('e1') or ext_raised(0)"]}},
          serves=['C09', 'C05'], no_fresh=True),
+    dict(id='S-UseExternal-filler-i18n',
+         # a value inserted inside a slot filler is converted (and, for message objects, translated)
+         # with the i18n settings of the filler's own elements: static linking check i18n_helpers_local
+         text='A<u metal:use-macro="e1"><f metal:fill-slot="s" i18n:domain="fd"><i tal:content="e2"/>${e3}</f></u>B',
+         own_names=['macroname', '__slot_s'],
+         ensures=["evals(1) == 1", "ext_count() == 1"],
+         raises={'*': {'ensures': ["raised('e1') or ext_raised(0)"]}},
+         serves=['C09', 'C10'], no_fresh=True),
     dict(id='S-MacroUseInternal',
          text='A<m metal:define-macro="m">%s</m>B' % H1,
          ensures=[
